@@ -12,12 +12,14 @@ Ev == TraceLog[l]
 Rng(q) == {q[k] : k \in 1..Len(q)}
 StepOf == IF Ev.ev = "import"
           THEN [act |-> "import", s |-> Ev.s, i |-> Ev.i, t |-> Ev.t, v |-> Ev.v, ok |-> Ev.ok, tx |-> Ev.tx, acc |-> Ev.acc, why |-> "logged"]
+          ELSE IF Ev.ev = "relay"
+          THEN [act |-> "relay", tx |-> Ev.tx, pre |-> Ev.pre, catch |-> Ev.catch, ok |-> Ev.acc, a |-> Ev.a, b |-> Ev.b]
           ELSE IF Ev.ev \in {"black", "white", "register", "quit"} THEN [act |-> Ev.ev, c |-> Ev.c]
           ELSE [act |-> Ev.ev]
 TStep == /\ l <= Len(TraceLog) /\ Ev.ev # "reset" /\ l' = l + 1
          /\ registry' = Rng(Ev.reg) /\ black' = Rng(Ev.blk) /\ done' = Rng(Ev.done)
          /\ requests' = Rng(Ev.req) /\ leaves' = Ev.lv /\ height' = Ev.h
-         /\ ntx' = IF Ev.ev = "import" THEN Ev.tx ELSE ntx
+         /\ ntx' = IF Ev.ev \in {"import", "relay"} THEN Ev.tx ELSE ntx
          /\ obs' = StepOf /\ hist' = hist
 TReset == /\ l <= Len(TraceLog) /\ Ev.ev = "reset" /\ l' = l + 1
           /\ registry' = Rng(Ev.reg) /\ black' = Rng(Ev.blk) /\ done' = Rng(Ev.done) /\ requests' = {} /\ leaves' = <<>>
